@@ -439,7 +439,10 @@ def run_quiesce(s, J, op, plan, degenerate, results, counts):
             and bool(pr.absX.any(axis=0).all()) and pr.pen.convex
             and pr.n >= pr.p + (1 if res["fi"] else 0)       # underdetermined problems converge slowly
             and (quad_like or (s.dname in ("Logistic", "LogisticGroup") and frac >= 0.1
-                               and not res["fi"]))
+                               and not res["fi"]
+                               # (an unpenalised feature can separate the classes like an
+                               # intercept: no finite optimum, no liveness)
+                               and bool(np.all(pr.pen.penalized_mask(pr.p)))))
             and tol >= 1e-9)
     gscale = plan["family"].get("alpha_max_rm") or 0.0
     if op.get("liveness", True) and easy and not claimed and gscale > 0 and tol >= 1e-6 * gscale \
